@@ -5,10 +5,14 @@ package harness
 
 import (
 	"fmt"
+	"io"
 	"testing"
 
 	"github.com/ipfs/go-cid"
 	"github.com/ipfs/go-unixfsnode"
+	"github.com/ipld/go-ipld-prime"
+	cidlink "github.com/ipld/go-ipld-prime/linking/cid"
+	"github.com/ipld/go-ipld-prime/datamodel"
 	"github.com/ipld/go-ipld-prime/traversal"
 	"github.com/ipld/go-ipld-prime/traversal/selector"
 	"pgregory.net/rapid"
@@ -22,6 +26,30 @@ const c06Rule = "case = (tree whose entries are real stored DAGs, a target entit
 func c06Access(st *Store, root *tnode, target *tnode, path string, access string) (log []cid.Cid, err error, p any) {
 	ls := st.LinkSystem()
 	p, _ = safe(func() {
+		if access == "entity-walk-of-probed-node" {
+			// the root is reified lazily, its size is probed (Seek to the end on a reader), then the entity walk starts from
+			// that already reified node: it still has to touch every block
+			rn, e := loadReified(ls, target.Root, "unixfs")
+			if e != nil {
+				err = fmt.Errorf("harness reify of entity root: %w", e)
+				return
+			}
+			if lb, ok := rn.(datamodel.LargeBytesNode); ok {
+				if rs, e := lb.AsLargeBytes(); e == nil {
+					_, _ = rs.Seek(0, io.SeekEnd)
+				}
+			}
+			sel, e := selector.CompileSelector(unixfsnode.UnixFSPathSelectorBuilder("", unixfsnode.MatchUnixFSEntitySelector, false))
+			if e != nil {
+				err = e
+				return
+			}
+			st.ResetLogs()
+			prog := traversal.Progress{Cfg: &traversal.Config{LinkSystem: *ls, LinkTargetNodePrototypeChooser: protoChooser}}
+			err = prog.WalkMatching(rn, sel, unixfsnode.BytesConsumingMatcher)
+			log = st.ReadLog()
+			return
+		}
 		if access == "reifier" {
 			pn, e := loadPlain(ls, target.Root)
 			if e != nil {
@@ -167,7 +195,7 @@ func TestC06_P_HandmadeFiles(t *testing.T) {
 	ev := newEvid(t, c06HandRule)
 	rapid.Check(t, func(t *rapid.T) {
 		fc := genHandFileDAG(t, false)
-		access := rapid.SampledFrom([]string{"reifier", "preload-selector", "entity-selector"}).Draw(t, "access")
+		access := rapid.SampledFrom([]string{"reifier", "preload-selector", "entity-selector", "entity-walk-of-probed-node"}).Draw(t, "access")
 		target := &tnode{Root: fc.Root, Data: fc.Data, Entity: fc.Tree.PreOrder()}
 		log, err, p := c06Access(fc.St, target, target, "", access)
 		if p != nil {
@@ -243,6 +271,49 @@ func TestC06_R_F12_LeadingEmptyChunk(t *testing.T) {
 		st.Missing = map[cid.Cid]bool{sumRaw(nil): true}
 		if _, err := ls.KnownReifiers["unixfs-preload"](lc0, pn, ls); err == nil {
 			t.Fatalf("C06 F12: file with chunks %q: preload succeeded although the empty chunk's block is unavailable", leaves)
+		}
+	}
+}
+
+// Link systems set up independently must stay independent: what the owner of one does to its own KnownReifiers table
+// must not change how another one preloads.
+func TestC06_R_LinkSystemsAreIndependent(t *testing.T) {
+	st := NewStore()
+	root, _, err := buildFile(st, lcgBytes(40, 1, 0), "size-4", 2)
+	if err != nil {
+		t.Fatal(err)
+	}
+	ft, _ := st.FileTree(root, 0)
+	mk := func() *ipld.LinkSystem {
+		ls := cidlink.DefaultLinkSystem()
+		ls.StorageReadOpener = st.openRead
+		unixfsnode.AddUnixFSReificationToLinkSystem(&ls)
+		return &ls
+	}
+	a := mk()
+	b := mk()
+	// the owner of a customises its own table (e.g. no preloading wanted there)
+	a.KnownReifiers["unixfs-preload"] = unixfsnode.Reify
+	delete(a.KnownReifiers, "unixfs")
+	c := mk()
+	for name, ls := range map[string]*ipld.LinkSystem{"created before the edit": b, "created after the edit": c} {
+		pn, err := loadPlain(ls, root)
+		if err != nil {
+			t.Fatal(err)
+		}
+		st.ResetLogs()
+		r, ok := ls.KnownReifiers["unixfs-preload"]
+		if !ok || ls.KnownReifiers["unixfs"] == nil {
+			t.Fatalf("C06: link system %s lost a reifier after another link system's table was edited", name)
+		}
+		if _, err := r(lc0, pn, ls); err != nil {
+			t.Fatal(err)
+		}
+		got := cidSet(st.ReadLog())
+		for _, blk := range ft.PreOrder()[1:] {
+			if !got[blk] {
+				t.Fatalf("C06: link system %s no longer preloads (block %s not requested) after ANOTHER link system's KnownReifiers was edited", name, blk)
+			}
 		}
 	}
 }
